@@ -490,4 +490,16 @@ server 1 for the first child of the root, as the model does -/
 example : pickLoopSrc ⟨3, 4, [0, 1, 0, 1, 0]⟩ [true, false, false, false, false] 0 1 13 1 1 true = some 1 ∧
     pick ⟨3, 4, [0, 1, 0, 1, 0]⟩ ⟨[true, false, false, false, false], 1, 1⟩ 0 = some 1 := by decide
 
+
+/-- **the guard of `NewRosterWithRoot`, lifted from the source, is the model's "no roster"**: with `rootIndex` the
+result of `Search` (−1: not found) the extracted `rootIndex < 0` holds exactly when `withRootKeys` is `none`
+(`c12_withroot_tree`: exactly when the root is no member).  Falsified by the seeded change C12r7-A (the guard replaced
+by `rootIndex > 0` around the exchange: a stranger gets the roster in its old order). -/
+theorem c12_gen_withRoot_guard (keys : List Nat) (k : Nat) :
+    Gen.C12Big.withRoot_guard (searchInt keys k) = (withRootKeys keys k).isNone :=
+  bigdec_withRoot_guard keys k
+
+example : Gen.C12Big.withRoot_guard (searchInt [5, 6, 7] 9) = true ∧ Gen.C12Big.withRoot_guard (searchInt [5, 6, 7] 7) = false := by
+  decide
+
 end C12
